@@ -41,7 +41,7 @@ ASSUMPTIONS = [
     '.run default CLOSE ON: named SELECT queries in all shapes; named BALANCES/JOURNAL/PRINT only without FROM or with an explicit CLOSE (where both readings of the property agree)',
     '.tables/.describe/.explain output text and warnings text are never compared',
 ]
-PROBES = ['render_after_setting_change', 'numberify_on_render', 'csv_render', 'boxed_unicode_render', 'empty_text_result',
+PROBES = ['bare_non_legacy_word', 'named_query_text_typed_after_run', 'render_after_setting_change', 'numberify_on_render', 'csv_render', 'boxed_unicode_render', 'empty_text_result',
           'run_default_close_applied', 'run_explicit_close_kept', 'invalid_set_rejected', 'either_or_value', 'writer_fault_prefix',
           'second_session_isolated', 'cmdloop_error_path', 'dot_keyword_not_executed', 'legacy_bare_command', 'print_statement',
           'cli_output_file', 'cli_quiet_with_errors', 'cli_stdin_query', 'cli_init_file', 'nullvalue_rendered', 'expand_render']
@@ -115,6 +115,13 @@ def gen_named_queries(rng, lastday):
         d['date'] = '2021-06-01'
         d['dup'] = True
         qs.append(d)
+    if rng.random() < 0.3 and qs:
+        # same text under another name and date: each must run with its own default close date
+        d = dict(rng.choice([q for q in qs if not q.get('dup')] or qs))
+        if not d.get('dup'):
+            d['name'] = d['name'] + '-again'
+            d['date'] = rng.choice(['2020-01-25', '2020-02-15', '2020-04-01'])
+            qs.append(d)
     return qs
 
 
@@ -168,6 +175,10 @@ def generate(rng, tier, run):
     for q in named:
         ledger['dirs'].append({'k': 'query', 'date': q['date'], 'name': q['name'], 'text': query_text(q)})
     pool = rng.sample(STMTS[:17], rng.randint(3, 7)) + rng.sample(STMTS[17:], rng.choice([0, 1, 1, 2]))
+    # the text of a named query typed as an ordinary statement (must NOT get the directive's close date)
+    for q in named:
+        if rng.random() < 0.5 and not q.get('dup'):
+            pool.append(query_text(q))
     nsess = rng.choice([1, 1, 2])
     maxlines = 14 if not big else 30
     clients = []
@@ -198,6 +209,8 @@ def generate(rng, tier, run):
                                        {'op': 'explain', 'stmt': rng.randrange(len(pool))}]))
             elif r < 0.96:
                 ops.append(rng.choice([{'op': 'unknown', 'text': '.foo'}, {'op': 'unknown', 'text': '.selectx 1'},
+                                       {'op': 'bareword', 'text': 'tables'}, {'op': 'bareword', 'text': 'describe postings'},
+                                       {'op': 'bareword', 'text': 'explain SELECT account'}, {'op': 'bareword', 'text': 'Tables'},
                                        {'op': 'dotkw', 'text': '.select a FROM #sentinel'},
                                        {'op': 'dotkw', 'text': '.balances'}, {'op': 'dotkw', 'text': '.print'},
                                        {'op': 'dotkw', 'text': '.journal'}]))
@@ -351,6 +364,7 @@ def execute(case, keep_log=False):
         n = len(case['clients'])
         sess = [None] * n
         changed_since_render = [False] * n
+        ran_texts = [set() for _ in range(n)]
         nontrivial = False
         order = sim.schedule_order(case.get('schedule', []), [len(c['ops']) for c in case['clients']])
 
@@ -536,6 +550,8 @@ def execute(case, keep_log=False):
                             changed_since_render[ci] = True
                         s['M'] = applied
             elif k == 'stmt':
+                if pool[op['stmt']] in ran_texts[ci]:
+                    S.probes['named_query_text_typed_after_run'] += 1
                 do_statement(ci, where, op, pool[op['stmt']], ('stmt', op['stmt']), op['text'])
             elif k == 'run':
                 if op['q'] is None:
@@ -559,6 +575,7 @@ def execute(case, keep_log=False):
                             log.add(where, k, 'dup', got)
                         else:
                             line = f'.run {nm}' + (';' if op['form'] == 'semicolon' else '')
+                            ran_texts[ci].add(query_text(q))
                             if q.get('from') and q['head'].startswith('SELECT'):
                                 S.probes['run_explicit_close_kept' if q.get('explicit') else 'run_default_close_applied'] += 1
                             do_statement(ci, where, op, query_text(q, with_default_close=True), ('run', op['q']), line)
@@ -569,9 +586,19 @@ def execute(case, keep_log=False):
                 log.add(where, k, line, bool(got), core.exc_class(exc) if exc else None)
                 if k != 'explain' and exc is not None:
                     violation('introspection-raised', where, op, 'no exception', core.exc_class(exc))
+            elif k == 'bareword':
+                # only a fixed set of legacy commands is accepted without the dot; any other bare line is a
+                # statement for the query parser - here an invalid one: an error, no command output
+                got, err, so, exc, _ = feed(ci, op['text'])
+                log.add(where, k, op['text'], bool(got), has_error(err), core.exc_class(exc) if exc else None)
+                S.probes['bare_non_legacy_word'] += 1
+                if got or so:
+                    violation('statement-executed-as-command', where, op, 'error, no output', (got or so)[:200])
+                elif not errored(exc, err, s['mode']):
+                    violation('statement-executed-as-command', where, op, 'error reported', 'no error')
             elif k in ('unknown', 'dotkw'):
                 got, err, so, exc, _ = feed(ci, op['text'])
-                log.add(where, k, op['text'], got, has_error(err), core.exc_class(exc) if exc else None)
+                log.add(where, k, op['text'], bool(got), has_error(err), core.exc_class(exc) if exc else None)
                 if k == 'dotkw':
                     S.probes['dot_keyword_not_executed'] += 1
                 if got or S.scans != scans0:
@@ -786,7 +813,7 @@ def _line(case, op):
         return ('.set ' if k == 'set' else 'set ') + op['name'] + ' ' + shlex.quote(op['value'])
     if k == 'run':
         return '.run ' + (case['world']['named'][op['q']]['name'] if op['q'] is not None else 'nosuchquery') + f' <{op["form"]}>'
-    if k in ('unknown', 'dotkw'):
+    if k in ('unknown', 'dotkw', 'bareword'):
         return op['text']
     if k == 'set_show':
         return f'.set {op["name"]}'
